@@ -150,3 +150,95 @@ package server
 //@     | ==> fileText(backupManager.store.storeLocation + "/" + "DATAHUB_BACKUPID") == fileText(backupManager.backupLocation + "/" + "DATAHUB_BACKUPID")
 //@   ensures [own-id-required] result ==> readable(backupManager.store.storeLocation + "/" + "DATAHUB_BACKUPID")
 //@   modifies $writable, $appending, $opened, []interface{}, []string, []uint8
+
+// ---------------------------------------------------------------------------
+// C15: the stream parser never panics on a wrongly typed token and never hands out an entity from a failed parse
+
+//@ assumed (*Store).GetNamespacedIdentifier
+//@   modifies $held, $persisted, $storeAttempted, map[string]string
+//@ unit (*EntityStreamParser).parseProperties
+//@   prop C15
+//@   requires [parser] esp != nil
+//@   requires [decoder] decoder != nil
+//@   requires [store] esp.store != nil
+//@   requires [mappings] esp.localPropertyMappings != nil
+//@   ensures [no-props-on-error] ret1 != nil ==> ret0 == nil
+//@   ensures [props-on-success] ret1 == nil ==> ret0 != nil
+//@   modifies $held, $persisted, $storeAttempted, map[string]string, map[string]interface{}, Entity.*, []interface{}
+//@   safe typeassert nilmap
+
+//@ unit (*EntityStreamParser).parseReferences
+//@   prop C15
+//@   requires [parser] esp != nil
+//@   requires [decoder] decoder != nil
+//@   requires [store] esp.store != nil
+//@   requires [mappings] esp.localPropertyMappings != nil
+//@   ensures [no-refs-on-error] ret1 != nil ==> ret0 == nil
+//@   ensures [refs-on-success] ret1 == nil ==> ret0 != nil
+//@   modifies $held, $persisted, $storeAttempted, map[string]string, map[string]interface{}, []interface{}, []string
+//@   safe typeassert nilmap
+
+//@ unit (*EntityStreamParser).parseValue
+//@   prop C15
+//@   requires [parser] esp != nil
+//@   requires [decoder] decoder != nil
+//@   requires [store] esp.store != nil
+//@   requires [mappings] esp.localPropertyMappings != nil
+//@   modifies $held, $persisted, $storeAttempted, map[string]string, map[string]interface{}, Entity.*, []interface{}
+//@   safe typeassert nilmap
+
+//@ unit (*EntityStreamParser).parseArray
+//@   prop C15
+//@   requires [parser] esp != nil
+//@   requires [decoder] decoder != nil
+//@   requires [store] esp.store != nil
+//@   requires [mappings] esp.localPropertyMappings != nil
+//@   modifies $held, $persisted, $storeAttempted, map[string]string, map[string]interface{}, Entity.*, []interface{}
+//@   safe typeassert nilmap
+
+//@ unit (*EntityStreamParser).parseRefValue
+//@   prop C15
+//@   requires [parser] esp != nil
+//@   requires [decoder] decoder != nil
+//@   requires [store] esp.store != nil
+//@   modifies $held, $persisted, $storeAttempted, map[string]string, []string, []interface{}
+//@   safe typeassert nilmap
+
+//@ unit (*EntityStreamParser).parseRefArray
+//@   prop C15
+//@   requires [parser] esp != nil
+//@   requires [decoder] decoder != nil
+//@   requires [store] esp.store != nil
+//@   modifies $held, $persisted, $storeAttempted, map[string]string, []string, []interface{}
+//@   safe typeassert nilmap
+
+//@ unit (*EntityStreamParser).parseEntity
+//@   prop C15
+//@   requires [parser] esp != nil
+//@   requires [decoder] decoder != nil
+//@   requires [store] esp.store != nil
+//@   requires [mappings] esp.localPropertyMappings != nil
+//@   ensures [no-entity-on-error] ret1 != nil ==> ret0 == nil
+//@   ensures [entity-on-success] ret1 == nil ==> ret0 != nil
+//@   modifies $held, $persisted, $storeAttempted, map[string]string, map[string]interface{}, Entity.*, []interface{}
+//@   safe typeassert nilmap
+
+//@ unit (*EntityStreamParser).readContextNamespaces
+//@   prop C15
+//@   requires esp != nil && esp.localNamespaces != nil
+//@   modifies map[string]string
+//@   safe typeassert nilmap
+
+//@ unit (*EntityStreamParser).ParseStream
+//@   prop C15
+//@   requires esp != nil && esp.localNamespaces != nil && esp.store != nil && esp.localPropertyMappings != nil
+//@   dyncall emitEntity preserves EntityStreamParser.*
+//@   safe typeassert nilmap
+//@   at call emitEntity#1 before
+//@     assert [only-complete-entities] $arg0 != nil
+
+//@ unit (*EntityStreamParser).ParseTransaction
+//@   prop C15
+//@   requires esp != nil && esp.localNamespaces != nil && esp.store != nil && esp.localPropertyMappings != nil
+//@   ensures [no-transaction-on-error] ret1 != nil ==> ret0 == nil
+//@   safe typeassert nilmap
